@@ -316,8 +316,12 @@ def _abstract_eq(ctx, f: FuncInfo, se: bool, oe: bool, same_type: bool = True, s
     env: dict[str, object] = {}
     NONE, ARR_S, ARR_O = "NONE", "ARR_S", "ARR_O"
 
+    alias: dict[str, object] = {}  # locals that hold one of the two storages (`this = self._array`)
+
     def val(e):
         d = dotted(e)
+        if isinstance(e, ast.Name) and e.id in alias:
+            return alias[e.id]
         if d == "self._array":
             return NONE if se else ARR_S
         if d == f"{other}._array":
@@ -413,6 +417,14 @@ def _abstract_eq(ctx, f: FuncInfo, se: bool, oe: bool, same_type: bool = True, s
                 continue
             if isinstance(st, (ast.Assign, ast.AnnAssign)) and isinstance((st.targets[0] if isinstance(st, ast.Assign) else st.target), ast.Name):
                 nm = (st.targets[0] if isinstance(st, ast.Assign) else st.target).id
+                if getattr(st, "value", None) is None:
+                    continue
+                sv = val(st.value)
+                if sv is not None:
+                    alias[nm] = sv
+                    env.pop(nm, None)
+                    continue
+                alias.pop(nm, None)
                 env[nm] = ev(st.value)
                 continue
             if isinstance(st, ast.If):
@@ -462,7 +474,7 @@ def r5_equality(ctx):
     TOLERANT = ("allclose", "isclose", "assert_allclose", "approx", "assert_array_almost_equal", "testing")
     for q in (f"{AB}.__eq__", f"{PH}.__eq__"):
         f = ctx.func(q)
-        cmp_calls = [c for c in calls_in(f.node) if {"self._array", "other._array"} <= {dotted(n) for n in ast.walk(c) if isinstance(n, ast.Attribute)}]
+        cmp_calls = [c for c in calls_in(f.node) if {"self._array", "other._array"} <= {dotted(n) for n in ast.walk(expand(f, c, depth=2)) if isinstance(n, ast.Attribute)}]
         tol = [c for c in cmp_calls if call_name(c).split(".")[-1] in TOLERANT or any(k.arg in ("rtol", "atol", "rel", "abs", "decimal") for k in c.keywords)]
         exact = [c for c in cmp_calls if call_name(c).split(".")[-1] in EXACT] + [n for n in ast.walk(f.node) if isinstance(n, ast.Compare) and len(n.ops) == 1 and isinstance(n.ops[0], ast.Eq) and {dotted(n.left), dotted(n.comparators[0])} == {"self._array", "other._array"}]
         ok = not tol and bool(exact)
